@@ -278,6 +278,9 @@ func (r *FeatureLocal) ApproveOrDenyWrite(msg *api.Message, err model.ErrorType)
 }
 
 func (r *FeatureLocal) SetWriteApprovalTimeout(duration time.Duration) {
+	r.muxResponseCB.Lock()
+	defer r.muxResponseCB.Unlock()
+
 	r.writeTimeout = duration
 }
 
@@ -665,7 +668,10 @@ func (r *FeatureLocal) HandleMessage(message *api.Message) *model.ErrorType {
 		}
 	case model.CmdClassifierTypeWrite:
 		// if there is a write permission check callback set, invoke this instead of directly allowing the write
-		if len(r.writeApprovalCallbacks) > 0 {
+		r.muxResponseCB.Lock()
+		hasWriteApprovalCallbacks := len(r.writeApprovalCallbacks) > 0
+		r.muxResponseCB.Unlock()
+		if hasWriteApprovalCallbacks {
 			r.addPendingApproval(message)
 			r.processWriteApprovalCallbacks(message)
 		} else {
